@@ -55,7 +55,7 @@ def build(rng, tier):
         fam += X.split(tree, o.cases, BATCH)
     groups = [('default', base + fam)]
     # configurations: the restricted CORS mode (listed / not listed), the switch not a boolean / not set
-    for ci, cfg in enumerate(('listed', 'closed', 'notbool', 'unset')):
+    for ci, cfg in enumerate(('listed', 'closed', 'notbool', 'unset', 'listed-cred-empty', 'listed-cred-unset', 'listed-cred-odd', 'listed-bare')):
         batches = []
         for k in range(1 if quick else 2):
             tree = S.gen_tree(rng.fork(f'cfg-{cfg}-{k}'), small=True)
@@ -113,7 +113,7 @@ def grants_due(cfg, ask):
     """which grant headers the configuration owes this preflight: None = nothing can be demanded"""
     if 'origin' not in ask: return None
     if cfg in X.ALLOW_ALL_CFGS: return True
-    if cfg == 'listed':
+    if cfg.startswith('listed'):
         if ask['origin'] not in X.CFG_ORIGINS: return None
         if 'access-control-request-method' in ask and not covers(','.join(X.CFG_METHODS), ask['access-control-request-method']): return None
         if 'access-control-request-headers' in ask and not covers(','.join(X.CFG_HEADERS), ask['access-control-request-headers']): return None
